@@ -859,20 +859,43 @@ class Model:
                             reflect.append((fn, None, a0.value, n))
                         elif isinstance(a0, ast.Name) and a0.id in fn.params:
                             reflect.append((fn, a0.id, None, n))
+                        else:
+                            # a name computed locally (getter = TABLE[side]; 'get_' + side is not followed): every string the defining expressions can yield
+                            exprs = [a0]
+                            if isinstance(a0, ast.Name):
+                                exprs = [s_.value for s_ in ast.walk(fn.node) if isinstance(s_, ast.Assign) and any(isinstance(t_, ast.Name) and t_.id == a0.id for t_ in s_.targets)]
+                            for ex in exprs:
+                                pool = [ex]
+                                for x_ in ast.walk(ex):
+                                    if isinstance(x_, ast.Name):
+                                        gv_ = self.global_value(fn.mod, x_.id)
+                                        if gv_ is not None:
+                                            pool.append(gv_[1])
+                                for pe in pool:
+                                    for x_ in ast.walk(pe):
+                                        if isinstance(x_, ast.Constant) and isinstance(x_.value, str) and x_.value.isidentifier():
+                                            reflect.append((fn, None, x_.value, n))
+        def strings_passed(fn, pname, depth=0):
+            """string constants that call sites bind to parameter pname of fn (through callers that merely pass their own parameter on)"""
+            got = []
+            if depth > 4:
+                return got
+            for caller, cn in sites.get(fn.qn, []):
+                if isinstance(cn, ast.Call):
+                    ps_ = fn.pos_params
+                    if fn.cls is not None and not fn.is_static and ps_ and ps_[0] in ('self', 'cls'):
+                        ps_ = ps_[1:]
+                    bound = [a for i_, a in enumerate(cn.args) if i_ < len(ps_) and ps_[i_] == pname] + [k.value for k in cn.keywords if k.arg == pname]
+                    for a in bound:
+                        if isinstance(a, ast.Constant) and isinstance(a.value, str):
+                            got.append(a.value)
+                        elif isinstance(a, ast.Name) and a.id in caller.params:
+                            got.extend(strings_passed(caller, a.id, depth + 1))
+            return got
         for fn, pname, const, n in reflect:
             names = [const] if const else []
             if pname:
-                for caller, cn in sites.get(fn.qn, []):
-                    if isinstance(cn, ast.Call):
-                        ps_ = fn.pos_params
-                        if fn.cls is not None and not fn.is_static and ps_ and ps_[0] in ('self', 'cls'):
-                            ps_ = ps_[1:]
-                        for i_, a in enumerate(cn.args):
-                            if i_ < len(ps_) and ps_[i_] == pname and isinstance(a, ast.Constant) and isinstance(a.value, str):
-                                names.append(a.value)
-                        for k in cn.keywords:
-                            if k.arg == pname and isinstance(k.value, ast.Constant) and isinstance(k.value.value, str):
-                                names.append(k.value.value)
+                names.extend(strings_passed(fn, pname))
             for nm_ in names:
                 for t in self.cha(nm_):
                     cg[fn.qn].add(t.qn)
